@@ -333,6 +333,37 @@ def abbreviate(s):
     s = _re.sub(r'msg::[A-Za-z]+\.', 'msg.', s)
     return s
 
+def nget(t, steps):
+    """read a path of ('f', name) / ('v', Variant, name) steps from a normalised term, looking through `with` updates"""
+    for st in steps:
+        if t[0] == 'upd':
+            hit = None
+            for s, v in t[2]:
+                if s == st: hit = v; break
+            if hit is not None: t = hit; continue
+            t = nget(t[1], (st,)); continue
+        if t[0] == 'adt':
+            if st[0] == 'f':
+                d = dict(t[3])
+                if st[1] in d: t = d[st[1]]; continue
+            elif st[0] == 'v' and t[2] == st[1]:
+                d = dict(t[3])
+                if st[2] in d: t = d[st[2]]; continue
+        t = ('f', t, st[1]) if st[0] == 'f' else ('v', t, st[1], st[2])
+    return t
+
+def upd_paths(rec, base, prefix=()):
+    """all leaf update paths of rec relative to base: list of (path, value); None if rec does not derive from base"""
+    if rec == base: return []
+    if rec[0] != 'upd' or rec[1] != base: return None
+    out = []
+    for s, v in rec[2]:
+        sub_base = nget(base, (s,))
+        sub = upd_paths(v, sub_base, prefix + (s,))
+        if sub is None: out.append((prefix + (s,), v))
+        else: out.extend(sub)
+    return out
+
 def K(t):
     """stable key string of a normalised term (no line numbers)"""
     return abbreviate(P(t))
